@@ -347,12 +347,17 @@ func c12ForeignClient(kind string, h http.Handler, target string, own []string) 
 
 // discovery chain through the wire-faithful transport and a stock http.Client
 func c12Discovery(kind, prefix string) (clause, detail string) {
+	return c12DiscoverySeg(kind, prefix, "")
+}
+
+// c12DiscoverySeg: the discovery chain over a layout whose every level is named by seg (special characters).
+func c12DiscoverySeg(kind, prefix, seg string) (clause, detail string) {
 	defer func() {
 		if p := recover(); p != nil {
 			clause, detail = "panic", fmt.Sprint(p)
 		}
 	}()
-	l := c12LayoutFor(prefix)
+	l := c12LayoutSeg(prefix, seg)
 	h, _ := c12Handler(kind, prefix, l)
 	w := &harness.Wire{Handler: h}
 	ctx := context.Background()
@@ -568,6 +573,12 @@ func init() {
 				}
 				exs = append(exs, ex{kind, pf, "", "discovery"})
 				exs = append(exs, ex{kind, pf, "", "two-users"})
+				if strings.Count(pf, "/") <= 2 {
+					// every level of the layout named with characters that mean something in a URL
+					for _, seg := range []string{"a?b", "a#b", "a%41", "100%", "a b", "é", "a+b", "a;b=c", "a&b"} {
+						exs = append(exs, ex{kind, pf, seg, "discovery-seg"})
+					}
+				}
 			}
 		}
 		r.Parallel(len(exs), func(i int, s *engine.Shard) {
@@ -579,6 +590,12 @@ func init() {
 				}
 				clause, detail = c12Discovery(e.kind, e.pf)
 				s.Clause("discovery chain returns exactly the backend's paths")
+			} else if e.depth == "discovery-seg" {
+				for k := 0; k < 6; k++ {
+					s.Transition()
+				}
+				clause, detail = c12DiscoverySeg(e.kind, e.pf, e.target)
+				s.Clause("discovery chain returns exactly the backend's paths (special segment names)")
 			} else if e.depth == "two-users" {
 				for k := 0; k < 12; k++ {
 					s.Transition()
@@ -594,7 +611,7 @@ func init() {
 			s.Nontrivial(fmt.Sprintf("X/%d", i))
 			if clause != "" {
 				s.Violate(engine.Violation{Sig: fmt.Sprintf("C12/%s/%s/%s", clause, e.kind, c12PrefixClass(e.pf)), Clause: clause, Index: base + int64(i), Kind: "C12-extra",
-					Case:     c12Extra{Part: map[string]string{"discovery": "discovery", "two-users": "two-users"}[e.depth], Kind: e.kind, Prefix: e.pf, Target: e.target, Depth: e.depth},
+					Case:     c12Extra{Part: map[string]string{"discovery": "discovery", "two-users": "two-users", "discovery-seg": "discovery-seg"}[e.depth], Kind: e.kind, Prefix: e.pf, Target: e.target, Depth: e.depth},
 					Expected: "the backend's paths / nothing of the current user's", Observed: detail})
 			}
 		})
@@ -617,6 +634,8 @@ func init() {
 			clause, detail = c12Discovery(c.Kind, c.Prefix)
 		} else if c.Part == "two-users" {
 			clause, detail = c12TwoUsers(c.Kind, c.Prefix)
+		} else if c.Part == "discovery-seg" {
+			clause, detail = c12DiscoverySeg(c.Kind, c.Prefix, c.Target)
 		} else {
 			clause, detail = c12Foreign(c.Kind, c.Prefix, c.Target, c.Depth)
 		}
